@@ -154,6 +154,18 @@ def gsklSpec (ls : α) (a b : List α) : α :=
   let d := a.length / 2
   exp (-(symKL (a.take d) (a.drop d) (b.take d) (b.drop d)) / ls)
 
+/-- `symKL` with the variance jitter as a parameter (the code's `eps=1e-8` is the float64 nearest to `10⁻⁸`) -/
+def symKLe (eps : α) : (m1 v1 m2 v2 : List α) → α
+  | x :: m1, lv1 :: v1, y :: m2, lv2 :: v2 =>
+      let s1 := eps + exp lv1
+      let s2 := eps + exp lv2
+      (lit (1 / 2) * (s1 / s2 + sq (x - y) / s2 - lit 1) + lit (1 / 2) * (s2 / s1 + sq (x - y) / s1 - lit 1))
+        + symKLe eps m1 v1 m2 v2
+  | _, _, _, _ => lit 0
+def gsklSpecE (eps ls : α) (a b : List α) : α :=
+  let d := a.length / 2
+  exp (-(symKLe eps (a.take d) (a.drop d) (b.take d) (b.drop d)) / ls)
+
 /-- ArcKernel's cylindrical embedding `[r sin(πρ x/ℓ)] ++ [r cos(πρ x/ℓ)]` -/
 def arcEmbed (ls angle radius x : List α) : List α :=
   let u := rowMul angle (rowDiv x ls)
